@@ -45,14 +45,23 @@ def ncpu():
         return 4
 
 
-def run(cmd, cwd=None, env=None, timeout=None, stdin=None):
-    """Returns (rc, stdout, stderr, wall_s); rc = -9 on timeout."""
+def _limit_as(gb):
+    def f():
+        import resource
+        lim = int(gb * (1 << 30))
+        resource.setrlimit(resource.RLIMIT_AS, (lim, lim))
+    return f
+
+
+def run(cmd, cwd=None, env=None, timeout=None, stdin=None, mem_gb=None):
+    """Returns (rc, stdout, stderr, wall_s); rc = -9 on timeout.  mem_gb: address-space cap for the process tree."""
     t0 = time.time()
     e = dict(os.environ)
     if env:
         e.update(env)
     try:
         p = subprocess.run(cmd, cwd=cwd, env=e, timeout=timeout, input=stdin,
+                           preexec_fn=_limit_as(mem_gb) if mem_gb else None,
                            stdout=subprocess.PIPE, stderr=subprocess.PIPE, text=True, errors="replace")
         return p.returncode, p.stdout, p.stderr, time.time() - t0
     except subprocess.TimeoutExpired as ex:
